@@ -193,7 +193,7 @@ class Code:
         ctx = self.ctx[fmt]
         a, b = list(case["a"]), list(case["b"])
         ap = self.ap
-        out, out2, pass2, raised = [], [], False, ""
+        out, out2, out3, pass2, raised = [], [], [], False, ""
         try:
             with warnings.catch_warnings(), numpy.errstate(all="ignore"):
                 warnings.simplefilter("ignore")
@@ -202,6 +202,14 @@ class Code:
                     if len(out):
                         pass2 = True
                         out2 = ap.renormalize(ctx, list(out), functional=functional, fast=case["fast"], size=size)
+                        # further passes (as many as the list is long): only to CLASSIFY a failure of the two-pass
+                        # normal form (Trace_Expansion): does iterating reach the normal form at all?
+                        out3 = list(out2)
+                        same = len(out) == len(out2) and all(numpy.asarray(u).tobytes() == numpy.asarray(v).tobytes() for u, v in zip(out, out2))
+                        for _ in range(0 if same else len(a) + 1):      # a fixed point stays one (the function is deterministic)
+                            if not len(out3):
+                                break
+                            out3 = ap.renormalize(ctx, list(out3), functional=functional, fast=case["fast"], size=size)
                 elif op == "add":
                     out = ap.add(ctx, a, b, functional=functional, fast=case["fast"], size=size)
                 elif op == "sub":
@@ -216,7 +224,7 @@ class Code:
             raise
         except Exception as ex:  # noqa: any exception of the code is a recorded outcome
             raised = type(ex).__name__
-        return list(out), list(out2), pass2, raised
+        return list(out), list(out2), pass2, raised, list(out3)
 
     def two_prods(self, case):
         """apmath.two_prod (public) on the pairs of non-zero items of a product: [x, y, h, l] as numpy scalars"""
@@ -328,8 +336,8 @@ class Code:
         try:
             o1 = run(func, ca, cb) if op in ("add", "sub", "mul") else run(func, ca)
         except Exception as ex:  # noqa
-            return [([], [], False, type(ex).__name__ if not str(ex).startswith("ResultDtype") else str(ex))] * N
-        o2, pass2, err2 = [], False, ""
+            return [([], [], False, type(ex).__name__ if not str(ex).startswith("ResultDtype") else str(ex), [])] * N
+        o2, o3, pass2, err2 = [], [], False, ""
         if op == "renorm" and len(o1):
             pass2 = True
             func2, err2 = self.graph(op, len(o1), 0, fast, size, fmt)
@@ -338,9 +346,19 @@ class Code:
                     o2 = run(func2, list(o1))
                 except Exception as ex:  # noqa
                     err2 = type(ex).__name__
+                if len(o2) and not err2:
+                    func3, err3 = self.graph(op, len(o2), 0, fast, size, fmt)
+                    if func3 is not None:
+                        try:
+                            o3 = list(o2)
+                            same = len(o1) == len(o2) and all(numpy.asarray(u).tobytes() == numpy.asarray(v).tobytes() for u, v in zip(o1, o2))
+                            for _ in range(0 if same else len(ca) + 1):        # further passes only classify (see call())
+                                o3 = run(func3, list(o3))
+                        except Exception:  # noqa
+                            o3 = []
         res = []
         for k in range(N):
-            res.append(([c[k] for c in o1], [c[k] for c in o2], pass2, err2))
+            res.append(([c[k] for c in o1], [c[k] for c in o2], pass2, err2, [c[k] for c in o3]))
         return res
 
 
@@ -353,14 +371,17 @@ def check_dtype(vals, fmt):
 
 
 def make_event(eid, case, res):
-    out, out2, pass2, raised = res
+    out, out2, pass2, raised, out3 = res
     fmt = case["fmt"]
     if not raised:
         raised = check_dtype(list(out) + list(out2), fmt)
+    if check_dtype(list(out3), fmt):
+        out3 = []
     enc = lambda lst: [bits.fbits(x, fmt) for x in lst]  # noqa: E731
     ev = dict(id=eid, op=case["op"], fmt=fmt, variant=case["variant"], fast=bool(case["fast"]), size=case["size"],
               a=enc(case["a"]), b=enc(case["b"]), raised=raised,
               out=[] if raised else enc(out), out2=[] if raised else enc(out2), pass2=bool(pass2) and not raised,
+              out3=[] if raised else enc(out3),
               dr=bool(case.get("dr", False)), skel=enc(case.get("skel", [])), rel=list(case.get("rel", [])),
               zsum=bool(case.get("zsum", False)), tp=[enc(t) for t in case.get("tp", [])])
     return ev
